@@ -2,8 +2,10 @@ package main
 
 import (
 	"fmt"
-	am "github.com/hashicorp/go-argmapper"
 	"math/rand"
+	"reflect"
+
+	am "github.com/hashicorp/go-argmapper"
 )
 
 // ---------------------------------------------------------------------------
@@ -125,6 +127,12 @@ func init() {
 				// same model over unnamed / mutually assignable / func / chan types
 				s = exoticize(s, r)
 				res.obs("cases_over_exotic_types", 1)
+			}
+			if c.Idx%9 == 2 {
+				// value names starting with a non-ASCII letter, capitalised on
+				// the struct side
+				s = unicodeNames(s)
+				res.obs("cases_with_non_ascii_names", 1)
 			}
 			res.Key = s.Key()
 			for _, cv := range s.Convs {
@@ -315,7 +323,20 @@ func init() {
 				// converters: a converter failing INSIDE it makes its call
 				// return exactly that error, like any other call
 				if r.Intn(3) == 0 {
-					if ro := DoRedefine(in.W, in.Target.Func, append(in.AllArgs(2, r), am.FilterInput(inputTypesFilter(&s)))); ro.Func != nil && ro.Err == nil {
+					flt := inputTypesFilter(&s)
+					if c.Idx%3 == 1 {
+						// also admit the interface types the inputs implement:
+						// the derived function may then declare inputs of
+						// interface type
+						flt = inputTypesFilterIfaces(&s)
+					}
+					if ro := DoRedefine(in.W, in.Target.Func, append(in.AllArgs(2, r), am.FilterInput(flt))); ro.Func != nil && ro.Err == nil {
+						for _, v := range ro.Func.Input().Values() {
+							if v.Type.Kind() == reflect.Interface {
+								res.obs("redefined_functions_with_interface_typed_inputs", 1)
+								break
+							}
+						}
 						rargs, _, _ := redefinedArgs(in.W, ro.Func, 3, r)
 						o3 := DoCall(in.W, ro.Func, rargs)
 						res.Evals++
@@ -607,6 +628,16 @@ func init() {
 				convT.InForm, convT.OutForm, convT.HasErr = FormBuilt, FormBuilt, true
 			} else {
 				convT.InForm, convT.OutForm = r.Intn(3), form(convT.Out)
+			}
+			if mode == 1 && c.Idx%5 == 1 {
+				// the type-only rival is a PROVIDER: a converter without
+				// inputs (its route to the parameter is the shortest one a
+				// type-only converter can have)
+				convT.In = nil
+				if convT.InForm != FormBuilt {
+					convT.InForm = FormPos
+				}
+				res.obs("competitions_against_a_provider", 1)
 			}
 			s.Convs = append(s.Convs, convT)
 			typeOnlyIdx, nameIdx := 0, -1
